@@ -11,7 +11,7 @@ import (
 func init() {
 	register(&propDef{
 		ID:          "C18",
-		Explanation: "Decides, for package lsp/jsonrpc2 (every function; go/cfg locksets and dominance, type-resolved): R1 every call of the Stream interface's Write holds one and the same write mutex of the connection (so whole frames are serialised) and all senders go through that one function; R2 in the framed stream's Write the length printed in the header is len() of the very byte slice passed to the following Write on the connection, with the Content-Length name and the blank-line separator as constants and no arithmetic on the length; R3 in the framed stream's Read the body buffer is make([]byte, length) with length parsed from the header, filled by io.ReadFull, on paths where length ≤ 0 and a missing header were rejected, and the header-line slice expressions are dominated by the `colon < 0` rejection; R4 in Call the reply channel is registered in the pending map (under its mutex) before the request is sent, has capacity ≥ 1, its removal is deferred, every access to the pending map holds its mutex, and the reader delivers a response only to the channel looked up by the response's own id; R5 the wait in Call selects on the reply and on ctx.Done(); also R3 the announced length has an upper bound before it sizes the allocation (a parse of at most 32 bits, or an explicit maximum test that dominates make), R4 the reply channel is made by the call itself (never recycled), and R6 DecodeMessage rejects no frame on a wire field that is optional (omitempty) and that this package's own encoder can leave null. NOT decided: all chunkings / schedules, JSON decoding of bodies.",
+		Explanation: "Decides, for package lsp/jsonrpc2 (every function; go/cfg locksets and dominance, type-resolved): R1 every call of the Stream interface's Write holds one and the same write mutex of the connection (so whole frames are serialised) and all senders go through that one function; R2 in the framed stream's Write the length printed in the header is len() of the very byte slice passed to the following Write on the connection, with the Content-Length name and the blank-line separator as constants and no arithmetic on the length; R3 in the framed stream's Read the body buffer is make([]byte, length) with length parsed from the header, filled by io.ReadFull, on paths where length ≤ 0 and a missing header were rejected, and the header-line slice expressions are dominated by the `colon < 0` rejection; R4 in Call the reply channel is registered in the pending map (under its mutex) before the request is sent, has capacity ≥ 1, its removal is deferred, every access to the pending map holds its mutex, and the reader delivers a response only to the channel looked up by the response's own id; R5 the wait in Call selects on the reply and on ctx.Done(); also R3 the announced length has an upper bound before it sizes the allocation (a parse of at most 32 bits, or an explicit maximum test that dominates make), R4 the reply channel is made by the call itself (never recycled), and R6 DecodeMessage rejects no frame on a wire field that is optional (omitempty) and that this package's own encoder can leave null., R2 after a successful header write the body write follows on every path, and R7 no number parsed from the wire is narrowed by a conversion. NOT decided: all chunkings / schedules, JSON decoding of bodies.",
 		Assumptions: []string{"io.ReadFull returns an error unless exactly len(buf) bytes were read", "sync.Mutex provides mutual exclusion"},
 		Trusted:     []string{"go/types", "x/tools go/packages, go/cfg"},
 		Run:         runC18,
@@ -21,6 +21,7 @@ func init() {
 func runC18(c *Ctx) {
 	c.load("./lsp/jsonrpc2")
 	decoderNotStricterThanEncoder(c, "C18.R6")
+	noNarrowingOfParsedNumbers(c, "C18.R7")
 	p := c.pkg("lsp/jsonrpc2")
 	info := p.TypesInfo
 	bodies := funcBodies(p)
@@ -137,6 +138,54 @@ func runC18(c *Ctx) {
 		})
 		c.check(bodyWrite, "C18.R2", key+"|body-is-measured-slice", c.pos(fpr.Pos()), "the slice measured for the header is the slice written as the body",
 			"the byte slice written after the header is not the one whose length the header announced")
+		// once the header is on the wire the body follows: between the header write and the body write the only way
+		// out is the header write's own error (after a failed write the stream is broken anyway)
+		var bodyCall *ast.CallExpr
+		ast.Inspect(fd.Body, func(n ast.Node) bool {
+			if call, ok := n.(*ast.CallExpr); ok && call.Pos() > fpr.End() && bodyCall == nil {
+				if se, ok := call.Fun.(*ast.SelectorExpr); ok && se.Sel.Name == "Write" && len(call.Args) == 1 && types.ExprString(se.X) == types.ExprString(fpr.Args[0]) {
+					bodyCall = call
+				}
+			}
+			return true
+		})
+		if bodyCall != nil {
+			// the error variable of the header write
+			var hdrErr types.Object
+			ast.Inspect(fd.Body, func(n ast.Node) bool {
+				if as, ok := n.(*ast.AssignStmt); ok && len(as.Rhs) == 1 && as.Rhs[0] == ast.Expr(fpr) && len(as.Lhs) == 2 {
+					if id, ok := as.Lhs[1].(*ast.Ident); ok {
+						hdrErr = info.ObjectOf(id)
+					}
+				}
+				return true
+			})
+			escape := ""
+			ast.Inspect(fd.Body, func(n ast.Node) bool {
+				ret, ok := n.(*ast.ReturnStmt)
+				if !ok || ret.Pos() < fpr.End() || ret.Pos() > bodyCall.Pos() {
+					return true
+				}
+				// allowed: inside `if <hdrErr> != nil { … }`
+				allowed := false
+				ast.Inspect(fd.Body, func(m ast.Node) bool {
+					if is, ok := m.(*ast.IfStmt); ok && is.Body.Pos() <= ret.Pos() && ret.End() <= is.Body.End() && is.Init == nil {
+						if be, ok := ast.Unparen(is.Cond).(*ast.BinaryExpr); ok && be.Op == token.NEQ && types.ExprString(be.Y) == "nil" {
+							if id, ok := ast.Unparen(be.X).(*ast.Ident); ok && hdrErr != nil && info.ObjectOf(id) == hdrErr {
+								allowed = true
+							}
+						}
+					}
+					return true
+				})
+				if !allowed {
+					escape = c.pos(ret.Pos())
+				}
+				return true
+			})
+			c.check(escape == "", "C18.R2", key+"|header-is-followed-by-body", c.pos(fpr.Pos()), "after a successful header write the body write follows on every path",
+				"the framed writer can return ("+escape+") after the Content-Length header was written and before the body is: the header stays on the wire without its body, and the reader takes the next frame's header for the body (JSON error `invalid character 'C'`), which breaks every later message on the connection")
+		}
 	}
 	if !foundW {
 		c.viol("C18.R2", "anchor-lost:framed-writer", "", "no function writes a Content-Length header")
@@ -700,4 +749,111 @@ func decoderNotStricterThanEncoder(c *Ctx, rule string) {
 	})
 	c.count("decoder_rejections", n)
 	c.floor(rule, 2)
+}
+
+// noNarrowingOfParsedNumbers: C18.R7 — a number parsed from the wire is not narrowed by a conversion. An id such as
+// 4294967297 that is parsed into an int and then converted to int32 becomes 1 and completes somebody else's call;
+// decoding into the narrow type directly (encoding/json, or strconv with the matching bitSize) rejects it instead.
+func noNarrowingOfParsedNumbers(c *Ctx, rule string) {
+	p := c.pkg("lsp/jsonrpc2")
+	info := p.TypesInfo
+	width := func(t types.Type) int {
+		b, ok := t.Underlying().(*types.Basic)
+		if !ok {
+			return 0
+		}
+		switch b.Kind() {
+		case types.Int8, types.Uint8:
+			return 8
+		case types.Int16, types.Uint16:
+			return 16
+		case types.Int32, types.Uint32:
+			return 32
+		case types.Int64, types.Uint64, types.Int, types.Uint:
+			return 64
+		}
+		return 0
+	}
+	n := 0
+	for _, fd := range allFuncDecls(p) {
+		// variables assigned from strconv parsers, with the width they were parsed at
+		parsed := map[types.Object]int{}
+		ast.Inspect(fd.Body, func(x ast.Node) bool {
+			as, ok := x.(*ast.AssignStmt)
+			if !ok || len(as.Rhs) != 1 {
+				return true
+			}
+			call, ok := as.Rhs[0].(*ast.CallExpr)
+			if !ok {
+				return true
+			}
+			fn := calleeOf(info, call)
+			if fn == nil || !strings.HasPrefix(fullName(fn), "strconv.") {
+				return true
+			}
+			w := 64
+			if (fn.Name() == "ParseInt" || fn.Name() == "ParseUint") && len(call.Args) == 3 {
+				if v, ok := constInt(info, call.Args[2]); ok && v > 0 {
+					w = int(v)
+				}
+			}
+			if id, ok := as.Lhs[0].(*ast.Ident); ok {
+				parsed[info.ObjectOf(id)] = w
+			}
+			return true
+		})
+		if len(parsed) == 0 {
+			continue
+		}
+		ord := 0
+		ast.Inspect(fd.Body, func(x ast.Node) bool {
+			call, ok := x.(*ast.CallExpr)
+			if !ok || len(call.Args) != 1 {
+				return true
+			}
+			tv, ok := info.Types[call.Fun]
+			if !ok || !tv.IsType() {
+				return true
+			}
+			id, ok := ast.Unparen(call.Args[0]).(*ast.Ident)
+			if !ok {
+				return true
+			}
+			pw, isParsed := parsed[info.ObjectOf(id)]
+			if !isParsed {
+				return true
+			}
+			tw := width(tv.Type)
+			if tw == 0 {
+				return true
+			}
+			ord++
+			n++
+			c.check(pw <= tw, rule, fmt.Sprintf("%s|conversion#%d|parsed-number-not-narrowed", funcKey(p, fd), ord), c.pos(call.Pos()), fmt.Sprintf("parsed at %d bits, converted to a %d-bit type", pw, tw),
+				fmt.Sprintf("%s parses a number from the wire at %d bits and converts it with %s to %d bits: a value outside that range is silently truncated instead of rejected (an id of 4294967297 is read as 1 and completes another call; a request id above the range is answered under a different id)", fd.Name.Name, pw, types.ExprString(call.Fun), tw))
+			return true
+		})
+	}
+	c.count("conversions_of_parsed_numbers", n)
+	// expected count on the pinned tree is zero: positive control on a snippet with the same detector shape
+	src := `package control
+import "strconv"
+func f(b []byte) int32 { n, _ := strconv.Atoi(string(b)); return int32(n) }
+`
+	f, cinfo, ok := checkSnippet(c, src)
+	hit := false
+	if ok {
+		ast.Inspect(f, func(x ast.Node) bool {
+			if call, isCall := x.(*ast.CallExpr); isCall && len(call.Args) == 1 {
+				if tv, isT := cinfo.Types[call.Fun]; isT && tv.IsType() && width(tv.Type) == 32 {
+					if id, isID := call.Args[0].(*ast.Ident); isID && cinfo.ObjectOf(id) != nil && width(cinfo.ObjectOf(id).Type()) == 64 {
+						hit = true
+					}
+				}
+			}
+			return true
+		})
+	}
+	c.control(rule+":narrowing-conversion-detector", hit)
+	c.ok(rule, p.PkgPath+"|scanned", "", fmt.Sprintf("%d conversions of strconv-parsed numbers examined", n))
 }
